@@ -97,9 +97,19 @@ theorem emit_n (s : St) (e : Effect) (p : Pt) : (s.emit e p).n = s.n := rfl
 theorem emit_err (s : St) (e : Effect) (p : Pt) : (s.emit e p).err = s.err := rfl
 theorem emit_es (s : St) (e : Effect) (p : Pt) : (s.emit e p).es = s.es ++ [(e, p)] := rfl
 
+/-- the history part alone: the disk is the effect list applied to the base, every prefix is a good directory -/
+structure Hist (c : Par) (s : St) : Prop where
+  hist : s.d = applyAll c.base s.es
+  pref : ∀ k, DiskInv c.P (applyAll c.base (s.es.take k))
+
+theorem InvQ.toHist (h : InvQ c s) : Hist c s := ⟨h.hist, h.pref⟩
+
+theorem Hist.disk (h : Hist c s) : DiskInv c.P s.d := by
+  have := h.pref s.es.length
+  rwa [List.take_length, ← h.hist] at this
+
 /-- history part of one emit: needs only the effect's side condition -/
-theorem emit_hist (h : InvQ c s) (e : Effect) (p : Pt) (ok : EffOK c.P s.d e) :
-    (s.emit e p).d = applyAll c.base (s.emit e p).es ∧ ∀ k, DiskInv c.P (applyAll c.base ((s.emit e p).es.take k)) := by
+theorem Hist.emit (h : Hist c s) (e : Effect) (p : Pt) (ok : EffOK c.P s.d e) : Hist c (s.emit e p) := by
   refine ⟨?_, ?_⟩
   · rw [emit_d, emit_es, applyAll_append, ← h.hist]; rfl
   · intro k
@@ -108,6 +118,10 @@ theorem emit_hist (h : InvQ c s) (e : Effect) (p : Pt) (ok : EffOK c.P s.d e) :
     · rw [List.take_append_of_le_length hk]; exact h.pref k
     · rw [List.take_of_length_le (by simp; omega), applyAll_append, ← h.hist]
       exact apply_inv h.disk e ok
+
+theorem emit_hist (h : InvQ c s) (e : Effect) (p : Pt) (ok : EffOK c.P s.d e) :
+    (s.emit e p).d = applyAll c.base (s.emit e p).es ∧ ∀ k, DiskInv c.P (applyAll c.base ((s.emit e p).es.take k)) :=
+  ⟨(h.toHist.emit e p ok).hist, (h.toHist.emit e p ok).pref⟩
 
 theorem InvQ.emit (h : InvQ c s) (e : Effect) (p : Pt) (ok : EffOK c.P s.d e)
     (hi : ids (apply s.d e) = ids s.d) (hl : loadSnap (apply s.d e) = loadSnap s.d)
